@@ -44,6 +44,12 @@ RULES = [
     ('R7', re.compile(r'\b(payload|bytes|buf|body)\s*\.try_into\(\)\s*\.(?:expect\("[^"]*"\)|unwrap\(\))'), r'v_slice_to_array(\1)',
      'slice.try_into().unwrap() -> v_slice_to_array(slice)'),
     ('R7', re.compile(r'(\b\w+\[[^\]]+\])\.to_vec\(\)'), r'v_slice_to_vec(&\1)', 'slice[a..b].to_vec() -> v_slice_to_vec(&slice[a..b])'),
+    ('R3', re.compile(r'\b([\w.]+)\.metadata\(\)\?\.len\(\)'), r'vfile_len(\1)?', 'file.metadata()?.len() -> file model'),
+    ('R3', re.compile(r'\b(file|tmp_file|f)\.seek\(([^;]*?)\)\?;'), r'vfile_seek(\1, \2)?;', 'file.seek(..)? -> file model'),
+    ('R3', re.compile(r'\b(file|tmp_file|f)\.set_len\(([^;]*?)\)\?;'), r'vfile_set_len(\1, \2)?;', 'file.set_len(n)? -> file model'),
+    ('R3', re.compile(r'\b(file|tmp_file|f)\.write_all\(([^;]*?)\)\?;'), r'vfile_write_all(\1, \2)?;', 'file.write_all(b)? -> file model'),
+    ('R3', re.compile(r'\b(file|tmp_file|f)\.flush\(\)\?;'), r'vfile_flush(\1)?;', 'file.flush()? -> file model'),
+    ('R3', re.compile(r'\b([\w.]+)\.read_exact\(([^;]*?)\)'), r'vfile_read_exact(&mut \1, \2)', 'file.read_exact(buf) -> file model'),
     ('R6', re.compile(r'\b(\w+)\.as_bytes\(\)'), r'v_str_as_bytes(\1)', 'String::as_bytes -> trusted wrapper (uninterpreted str_bytes)'),
     ('R6', re.compile(r'\bString::from_utf8\('), r'v_string_from_utf8(', 'String::from_utf8 -> trusted wrapper (uninterpreted is_utf8)'),
     ('R10', re.compile(r'\|_\|'), r'|_e|', 'closure parameter `_` -> `_e` (Verus rejects `_` closure params)'),
